@@ -9,7 +9,7 @@ ENGINES = [
      "kind_free_text": "canonical forms of expression trees: polynomials/rational functions over Q in atoms with I^2=-1, sin^2->1-cos^2, sqrt^2, exp laws; equality by cross multiplication; no sampling, no solver"},
     {"name": "INDEX", "path": "sa/domains/index.py", "serves_properties": ["C04"],
      "kind_free_text": "affine x parity abstract domain for centre/offset expressions; decides //2, ceil(/2), floor(/2) identities for all lengths by enumerating parity classes"},
-    {"name": "KERNEL", "path": "sa/domains/kernel.py", "serves_properties": ["C01", "C02", "C03", "C05"],
+    {"name": "KERNEL", "path": "sa/domains/kernel.py", "serves_properties": ["C01", "C02", "C03", "C05", "C06"],
      "kind_free_text": "symbolic vectors/outer matrices over index atoms; DFT and chirp-Z kernels become canonical rational functions compared with the textbook kernel per axis"},
     {"name": "ORIGIN", "path": "sa/domains/origin.py", "serves_properties": ["C01", "C02"],
      "kind_free_text": "origin/phase-ramp typestate of fftshift/ifftshift/fft2/ifft2 pipelines per parity class"},
@@ -65,8 +65,15 @@ CLAIMS["C05"] = {
     "note": KTRUST + "known finding for the shifted return trip (known_findings.json).",
 }
 
+CLAIMS["C06"] = {
+    "engine": "KERNEL",
+    "technique": "static analysis: KERNEL comparison of companion bases with the conjugate transposes of the forward bases (all shift contexts, role-mapped shapes); origin-chain (dataflow) rules for composite companions; NORM symbolic differentiation of activation/cost closed forms; affine slice-stencil transposition for the finite-difference nodes; AST stage-order rule for the deformable mirror",
+    "text": "Decides: inventory of forward/companion pairs; dft2/idft2 companions and the fixed-sampling companions apply exactly L^H . g . R^H of the forward L . x . R for the same geometry (gradient shape = forward output, samples = forward input, so per-axis Q agrees for non-square and unequal sizes); to_fpm_and_back_backprop is focus_bp(conj(fpm) * unfocus_bp(g)) with stage companions in reverse order, the forward shift/method, no stray scalar, and a conjugation guard that tests the array; babinet_backprop is cbar - A^H cbar with a conjugated Lyot stop; intensity and phase companions equal 2 Ibar E and (2 pi/(1000 lambda)) Im(gbar conj E); Tanh/Arctan/Softplus/Sigmoid backprop(x) == D_x forward(x) symbolically; mean-square-error and negative-log-likelihood gradients equal the symbolic derivative of the cost (generic 3-sample array); modal sum contractions; SpatialGradient2D companions are the index-set transposes of the forward stencils with bounds from the differentiated axis; DM.render_backprop runs the forward stages in reverse with invproj/conj(tf)/gather and same-axis pad/crop guards. Not decided: Softmax Jacobian-vector product, bias_and_gain_invariant_error, and that the inverse warp/resample are adjoint to the forward interpolation (values).",
+    "note": KTRUST + "adjoint of a matrix triple product and of a composition; NORM differentiation rules for exp/log/arctan; real-gradient convention (2 Ibar E).",
+}
+
 NOT_APPLICABLE = {
     "C11": "index bijections are float sqrt/ceil algebra on the index; their failure mode is a rounding event at particular j and the deciding step named by the property (exhaustive j <= 1e5) is execution; no finite static abstraction of j decides it (DESIGN.md section 4, C11)",
 }
-for _p in ("C06 C07 C08 C09 C10 C12 C13 C14 C15 C16 C18 C19").split():
+for _p in ("C07 C08 C09 C10 C12 C13 C14 C15 C16 C18 C19").split():
     NOT_APPLICABLE[_p] = "check not delivered yet in this revision of /verif (design in DESIGN.md section 4); will be claimed only through the structural clauses named there once its rule module exists"
